@@ -76,6 +76,9 @@ int vp_plain_blocked;
 unsigned vp_ublockcount_[VP_MAXT]; /* ... blocked in a primitive that has no time-out */
 unsigned vp_cvwaits_[VP_MAXT];    /* condition-variable waits begun per thread */            /* a blocking primitive was not enabled inside sequential / atomic code */
 
+#ifndef VP_DYN_ALLOC_MAX
+#define VP_DYN_ALLOC_MAX 64   /* bytes handed out for an allocation whose size is symbolic (e.g. 8 pointers / 4 shared_ptrs) */
+#endif
 #ifndef VP_STEP
 #define VP_STEP(k)
 #endif
